@@ -1,7 +1,121 @@
-(* C18 — Index files are classified and their page metadata reported exactly. *)
+(* C18 — Index files are classified and their page metadata reported exactly.
+   Property theorems only; proofs live in C18/*Proofs.v.  Model = pgdump/index.go after the fix:
+   commits listed in notes/C18-report.md.  [enc_page]/[enc_file] are the reference writers of Spec.v
+   (PostgreSQL 12–16 page header, the six opaque structures at their real sizes 16/16/16/8/8/8, the
+   three metapage structures); [t] is whatever follows the slice in memory (cap > len). *)
 Require Import PG.Base.Bytes PG.Base.GoSlice.
-Require Import PG.C18.Types PG.C18.Model PG.C18.Spec PG.C18.Proofs.
+Require Import PG.C18.Types PG.C18.Model PG.C18.Spec PG.C18.Lib PG.C18.SpecialProofs PG.C18.PageProofs
+  PG.C18.MetaProofs PG.C18.FileProofs PG.C18.SafetyProofs PG.C18.WfProofs PG.C18.HistoricProofs.
+
+(* ---- classification ----
+   Every well-formed page of any of the six methods — all flag words, all links and levels, all B-tree
+   cycle ids 0..0xFF7F, all three BRIN page types, any header and body — is identified as its method
+   when it is the first page of the file.  (GIN pages carry no identifier: a GIN file starts with its
+   metapage, [first_ok] = GIN_META set; for the other five methods [first_ok] is [True].) *)
+Theorem C18_classify : forall p t,
+  wf_page p -> first_ok p ->
+  detectIndexType {| vis := enc_page p; tail := t |} = Ok (am_code (am_of (ip_op p))).
+Proof. exact detect_ok. Qed.
+Print Assumptions C18_classify.
+
+(* the six methods are pairwise not confused: no page image belongs to two of them *)
+Theorem C18_classify_distinct : forall p1 p2,
+  wf_page p1 -> first_ok p1 -> wf_page p2 -> first_ok p2 ->
+  enc_page p1 = enc_page p2 -> am_of (ip_op p1) = am_of (ip_op p2).
+Proof. exact classify_distinct. Qed.
+Print Assumptions C18_classify_distinct.
 
 Theorem C18_type_string : forall m, IndexType_String (am_code m) = am_name m.
-Proof. exact type_string_ok. Qed.
+Proof. exact type_string_ok'. Qed.
 Print Assumptions C18_type_string.
+
+(* ---- per-page metadata ----
+   Each special-space parser assigns exactly the stored opaque fields (flags, the booleans, the names
+   of the set bits among those pgread names, links, level/bucket, GIN maxoff) and nothing else. *)
+Theorem C18_special : forall o info t,
+  wf_opaque o ->
+  special_parser (am_of o) info {| vis := enc_opaque o; tail := t |} = Ok (special_result info o).
+Proof. exact special_ok. Qed.
+Print Assumptions C18_special.
+
+(* A page parsed with its own method reports block number, method, flags + names, booleans, sibling /
+   right links, level, item count, free space, LSN and LSN text equal to the stored fields. *)
+Theorem C18_page : forall p t num,
+  wf_page p ->
+  parseIndexPage {| vis := enc_page p; tail := t |} num (am_code (am_of (ip_op p))) = Ok (expected_page num p).
+Proof. exact page_ok. Qed.
+Print Assumptions C18_page.
+
+(* ---- metapages ----
+   B-tree (magic, version, root, level, fastroot, fastlevel), hash (magic, version, maxbucket and bucket
+   count, high/low mask, ffactor, ntuples bits), GIN (pending head/tail/free/pages/tuples, total/entry/data
+   pages, entries, version) equal the stored metapage; a page not flagged as metapage yields none. *)
+Theorem C18_meta : forall p t,
+  wf_page p ->
+  (am_of (ip_op p) = BTree -> parseBTreeMeta {| vis := enc_page p; tail := t |} = Ok (meta_bt (expected_meta p))) /\
+  (am_of (ip_op p) = Hash -> parseHashMeta {| vis := enc_page p; tail := t |} = Ok (meta_hash (expected_meta p))) /\
+  (am_of (ip_op p) = GIN -> parseGINMeta {| vis := enc_page p; tail := t |} = Ok (meta_gin (expected_meta p))).
+Proof. intros p t W. repeat split; intros A; [apply btmeta_ok | apply hashmeta_ok | apply ginmeta_ok]; assumption. Qed.
+Print Assumptions C18_meta.
+
+(* ---- whole files, any number of pages >= 1 (induction on the page list, no size bound) ----
+   For every well-formed index file (all pages of one method, first page [first_ok], optional trailing
+   partial page, any capacity tail): method, method name, page count, metapage report, RootPage/Levels
+   from the B-tree metapage, and every page's report at its block number (a uint32). *)
+Theorem C18_pages : forall f t,
+  wf_file f -> ParseIndexFile {| vis := enc_file f; tail := t |} = Ok (Some (expected_file f)).
+Proof. exact file_ok. Qed.
+Print Assumptions C18_pages.
+
+(* ---- safety: every byte string, every capacity tail ---- *)
+Theorem C18_no_panic : forall s,
+  ParseIndexFile s <> Panic /\ detectIndexType s <> Panic /\
+  parseBTreeMeta s <> Panic /\ parseHashMeta s <> Panic /\ parseGINMeta s <> Panic /\
+  (forall num ty, parseIndexPage s num ty <> Panic) /\
+  (forall info, parseBTreePageSpecial info s <> Panic /\ parseHashPageSpecial info s <> Panic /\
+                parseGiSTPageSpecial info s <> Panic /\ parseGINPageSpecial info s <> Panic /\
+                parseSPGiSTPageSpecial info s <> Panic /\ parseBRINPageSpecial info s <> Panic).
+Proof.
+  intros s. repeat split;
+    auto using file_np, detect_np, btmeta_np, hashmeta_np, ginmeta_np, page_np, bt_special_np, hash_special_np,
+               gist_special_np, gin_special_np, spgist_special_np, brin_special_np.
+Qed.
+Print Assumptions C18_no_panic.
+
+(* the generator's decidable checks imply the hypotheses above *)
+Theorem C18_wf_reflect : forall f, wf_file_b f = true -> wf_file f.
+Proof. exact wf_file_b_ok. Qed.
+Print Assumptions C18_wf_reflect.
+
+(* non-vacuity *)
+Example C18_example : wf_file ex_bt_file /\ ParseIndexFile {| vis := enc_file ex_bt_file; tail := [] |} = Ok (Some (expected_file ex_bt_file)).
+Proof. split; [exact ex_bt_file_wf | apply file_ok; exact ex_bt_file_wf]. Qed.
+
+(* ---- historic (behaviour before the fix: commits), concrete witnesses by vm_compute ---- *)
+Theorem C18_lsn_refuted :
+  exists p, wf_page p /\ old_page_lsn {| vis := enc_page p; tail := [] |} <> Ok (pi_lsn (expected_page 0 p)).
+Proof. exact lsn_refuted. Qed.
+Print Assumptions C18_lsn_refuted.
+Theorem C18_brin_refuted :
+  exists p, wf_page p /\ first_ok p /\ am_of (ip_op p) = BRIN /\
+    old_detectIndexType {| vis := enc_page p; tail := [] |} = Ok (am_code GIN).
+Proof. exact brin_refuted. Qed.
+Print Assumptions C18_brin_refuted.
+Theorem C18_cycle_refuted :
+  exists p, wf_page p /\ first_ok p /\ am_of (ip_op p) = BTree /\
+    old_detectIndexType {| vis := enc_page p; tail := [] |} = Ok IndexTypeUnknown.
+Proof. exact cycle_refuted. Qed.
+Print Assumptions C18_cycle_refuted.
+Theorem C18_hashmeta_refuted :
+  exists p m, wf_page p /\ expected_meta p = MHash m /\
+    exists r, old_hash_fields {| vis := enc_page p; tail := [] |} = Ok r /\ hm_maxbucket r <> hm_maxbucket m.
+Proof. exact hashmeta_refuted. Qed.
+Print Assumptions C18_hashmeta_refuted.
+Theorem C18_ginmeta_refuted :
+  exists p m, wf_page p /\ expected_meta p = MGin m /\
+    exists r, old_gin_fields {| vis := enc_page p; tail := [] |} = Ok r /\ gm_head r <> gm_head m.
+Proof. exact ginmeta_refuted. Qed.
+Print Assumptions C18_ginmeta_refuted.
+Theorem C18_hash_special_panic_refuted : exists sp, old_hash_special_flags sp = Panic.
+Proof. exact hash_special_panic_refuted. Qed.
+Print Assumptions C18_hash_special_panic_refuted.
